@@ -24,7 +24,8 @@ pub enum TState {
 
 struct Inner {
     threads: Vec<TState>,
-    turn: Option<usize>,
+    /// outstanding grants, one flag per thread (a grant is never revoked)
+    granted: Vec<bool>,
     /// (tid, site the thread was parked at when granted)
     trace: Vec<(usize, &'static str)>,
     free_run: bool,
@@ -65,7 +66,7 @@ pub enum StepResult {
 impl Sched {
     pub fn new(nthreads: usize) -> Arc<Sched> {
         let s = Arc::new(Sched {
-            inner: Mutex::new(Inner { threads: vec![TState::Running; nthreads], turn: None, trace: vec![], free_run: false }),
+            inner: Mutex::new(Inner { threads: vec![TState::Running; nthreads], granted: vec![false; nthreads], trace: vec![], free_run: false }),
             cv: Condvar::new(),
         });
         *CURRENT.lock() = Some(s.clone());
@@ -95,12 +96,10 @@ impl Sched {
         }
         g.threads[tid] = TState::Parked(site);
         self.cv.notify_all();
-        while g.turn != Some(tid) && !g.free_run {
+        while !g.granted[tid] && !g.free_run {
             self.cv.wait(&mut g);
         }
-        if g.turn == Some(tid) {
-            g.turn = None;
-        }
+        g.granted[tid] = false;
         g.threads[tid] = TState::Running;
     }
 
@@ -155,23 +154,20 @@ impl Sched {
             _ => return StepResult::NotRunnable,
         };
         g.trace.push((tid, site));
-        g.turn = Some(tid);
+        g.granted[tid] = true;
         g.threads[tid] = TState::Running;
         self.cv.notify_all();
         let deadline = Instant::now() + timeout;
         loop {
             match g.threads[tid] {
-                TState::Parked(s) if g.turn != Some(tid) => return StepResult::Parked(s),
+                TState::Parked(s) if !g.granted[tid] => return StepResult::Parked(s),
                 TState::Finished => return StepResult::Finished,
                 _ => {}
             }
             let now = Instant::now();
             if now >= deadline {
-                if g.turn == Some(tid) {
-                    // never picked the turn up: should not happen
-                    g.turn = None;
-                }
-                g.threads[tid] = TState::Blocked;
+                // the grant stays outstanding: a slow thread will still pick it up
+                if !matches!(g.threads[tid], TState::Parked(_)) || g.granted[tid] { g.threads[tid] = TState::Blocked; }
                 return StepResult::Blocked;
             }
             self.cv.wait_for(&mut g, deadline - now);
